@@ -44,3 +44,34 @@ def LineSafe (s : Bytes) : Prop := NUL ∉ s ∧ LF ∉ s
 def Node.Wf (n : Node) : Prop := n.perm < 0o10000 ∧ n.uid < 2^32 ∧ n.gid < 2^32 ∧ n.devno < 2^32 ∧ LineSafe n.target
 
 end Sqfs.Quote
+
+namespace Sqfs.Quote
+open Sqfs.Path (Bytes)
+
+mutual
+/-- the entries the describe output of a (sub)tree must decode to: the node's own, then its children's, in
+pre-order; only directories have children, node kinds that cannot be described contribute nothing -/
+def specTree (unpackRoot : Option Bytes) (comps : List Bytes) : Tree → List Entry
+  | .mk _ node children =>
+    (specEntry unpackRoot comps node).toList ++
+      (if node.kind = .dir then specForest unpackRoot comps children else [])
+def specForest (unpackRoot : Option Bytes) (parents : List Bytes) : List Tree → List Entry
+  | [] => []
+  | .mk name node ch :: ts =>
+    specTree unpackRoot (parents ++ [name]) (.mk name node ch) ++ specForest unpackRoot parents ts
+end
+
+mutual
+/-- every name below is a good entry name and every node's fields are in range -/
+def TreeOk : Tree → Prop
+  | .mk name node children => GoodName name ∧ node.Wf ∧ ForestOk children
+def ForestOk : List Tree → Prop
+  | [] => True
+  | t :: ts => TreeOk t ∧ ForestOk ts
+end
+
+/-- the tree of an image: a nameless root directory over good subtrees -/
+def RootOk : Tree → Prop
+  | .mk name node children => name = [] ∧ node.kind = .dir ∧ node.Wf ∧ ForestOk children
+
+end Sqfs.Quote
